@@ -1,0 +1,14 @@
+//go:build verif
+
+package virtual
+
+// VerifDump returns the locks in the set in list order. It only exists in
+// builds with the "verif" tag, where the verification harness compares it
+// with the state of its formal model.
+func (ls *ByteRangeLockSet[Owner]) VerifDump() []ByteRangeLock[Owner] {
+	var out []ByteRangeLock[Owner]
+	for le := ls.list.next; le != &ls.list; le = le.next {
+		out = append(out, le.lock)
+	}
+	return out
+}
